@@ -721,3 +721,136 @@ def tcp_connect(ctx):
         ctx.prove(len(subs) == 0, 'C14:O14.6.connect.failed-dial-leaves-nothing-subscribed')
         ctx.prove(fn_none, 'C14:O14.6.connect.failed-dial-leaves-no-descriptor')
         ctx.prove(Not(Or(err == 115, err == 11)), 'C14:O14.6.connect.in-progress-is-not-a-failure')
+
+
+# ------------------------------------------------------------------------------------------------ TcpServer (C14: the node stays reachable)
+SMODT = 'pysyncobj/tcp_server.py'
+TS = lambda n: '_TcpServer__' + n
+
+
+@unit(name='tcpserver.accept', relpath=SMODT, qual=['TcpServer.__onNewConnection', 'TcpServer.unbind'], props=['C14'],
+      cases=[dict(event=e) for e in (1, 2, 4, 5)],
+      doc='O14.7 (listening side): a READ event accepts at most one connection and hands it to the transport exactly once; EAGAIN/EWOULDBLOCK '
+          'changes nothing; after any other outcome the server is either still bound and subscribed, or it is UNBINDED, unsubscribed and says so '
+          '(state) - so that the transport can bind it again (unit transport.maybeBind); no exception escapes the event loop',
+      trusted=['T-SOCKET: accept returns a socket or raises socket.error with some errno'])
+def tcpserver_accept(ctx, event):
+    mod = source.load(SMODT)
+    fn, ci = mod.find('TcpServer.__onNewConnection')
+    lsock = ctx.alloc(PObj('Socket', {}))
+    poller = ctx.alloc(PObj('Poller', {}))
+    fileno = FreshInt('listenFileno')
+    consts = mod.classes['SERVER_STATE'].consts if 'SERVER_STATE' in mod.classes else {}
+    srv = ctx.alloc(PObj('TcpServer', {TS('socket'): lsock, TS('poller'): poller, TS('fileno'): fileno, TS('state'): 1,
+                                       TS('sendBufferSize'): 8192, TS('recvBufferSize'): 8192, TS('connectionTimeout'): FreshReal('timeout'),
+                                       TS('keepalive'): None, TS('onNewConnectionCallback'): Callable_('cb:onNewConnection')}))
+    err = FreshInt('socketErrno')        # errno of whichever socket call fails on this path (accept, or setsockopt on the accepted socket)
+    ctx.track('errno of the failing socket call', err)
+    newsock = ctx.alloc(PObj('Socket', {}))
+    unsub, closed, made = [], [], []
+
+    def sock_accept(I, s, a, k):
+        if ctx.decide(FreshBool('acceptRaises'), 'accept-raises'):
+            I.raise_('OSError', errno=err)
+        return (newsock, ('peer', 1))
+
+    def sock_setsockopt(I, s, a, k):
+        # the accepted socket may already have been reset by the peer
+        if s is not lsock and ctx.decide(FreshBool('setsockoptRaises'), 'setsockopt-raises'):
+            I.raise_('OSError', errno=err)
+        return None
+
+    def new_conn(I, a, k):
+        c = ctx.alloc(PObj('TcpConnection', {'socket': k.get('socket')}))
+        made.append(c)
+        return c
+    reg = {'Socket.accept': sock_accept, 'Socket.setsockopt': sock_setsockopt, 'Socket.setblocking': lambda I, s, a, k: None,
+           'Socket.close': lambda I, s, a, k: closed.append(s), 'Poller.unsubscribe': lambda I, s, a, k: unsub.append(a[0]),
+           'Poller.subscribe': lambda I, s, a, k: None}
+    I = Interp(ctx, registry=reg, externals=dict(EXT), inline={'TcpServer.unbind'}, hooks={'call:cb': cb_hook, 'new:TcpConnection': new_conn})
+    I.cur_mod = mod
+    try:
+        I.call_funcdef(fn, mod, 'TcpServer', srv, [fileno, event], {}, None, 'TcpServer.__onNewConnection')
+        outcome = 'ok'
+    except PyExc as e:
+        outcome = e.typ
+    ctx.prove(outcome == 'ok', 'C14+C13:O14.7.accept.no-exception-escapes-the-event-loop', info=outcome)
+    if outcome != 'ok':
+        return
+    f = ctx.cell(srv).fields
+    st1 = f[TS('state')]
+    handed = [a for t, a in ctx.glist('cb') if t == 'cb:onNewConnection']
+    ctx.prove(len(handed) <= 1 and len(made) <= 1, 'C14:O14.7.accept.at-most-one-connection-per-event')
+    for a in handed:
+        ctx.prove(len(made) == 1 and a[0] is made[0] and ctx.cell(made[0]).fields['socket'] is newsock, 'C14:O14.7.accept.connection-wraps-the-accepted-socket')
+    if not (event & 1):
+        ctx.prove(len(handed) == 0, 'C14:O14.7.accept.only-on-read-events')
+    still_bound = st1 == 1
+    if still_bound:
+        ctx.prove(len(unsub) == 0 and len(closed) == 0 and f[TS('fileno')] is fileno, 'C14:O14.7.accept.bound-server-stays-subscribed')
+        ctx.prove(not (event & 4), 'C14:O14.7.accept.error-event-unbinds')
+    else:
+        ctx.prove(st1 != 1 and unsub == [fileno] and f[TS('fileno')] is None and closed == [lsock], 'C14:O14.7.accept.unbound-server-is-unsubscribed-closed-and-says-so',
+                  info='state %r unsub %r' % (st1, unsub))
+    # EAGAIN / EWOULDBLOCK on accept is not an error
+    if (event & 1) and not (event & 4) and not handed and still_bound and not made:
+        pass
+    if (event & 1) and not (event & 4) and not still_bound:
+        ctx.prove(Not(Or(err == 11)), 'C14:O14.7.accept.EAGAIN-keeps-the-server-bound')
+
+
+@unit(name='tcpserver.bind', relpath=SMODT, qual=['TcpServer.bind', 'TcpServer.unbind'], props=['C14'],
+      doc='O14.7 (bind): a successful bind leaves the server BINDED with the listening descriptor subscribed exactly once for READ|ERROR with its '
+          'accept handler; a failing bind (address in use, ...) raises to the transport and leaves it not BINDED and not subscribed, so the '
+          'transport retries; unbind of a bound server unsubscribes and closes, and is harmless on an unbound one',
+      trusted=['T-SOCKET: bind/listen may raise socket.error'])
+def tcpserver_bind(ctx):
+    mod = source.load(SMODT)
+    subs, unsub, closed = [], [], []
+    lsock = ctx.alloc(PObj('Socket', {}))
+    fileno = FreshInt('listenFileno')
+    poller = ctx.alloc(PObj('Poller', {}))
+    unb = mod.classes['SERVER_STATE'].consts.get('UNBINDED') if hasattr(mod.classes.get('SERVER_STATE'), 'consts') else None
+    srv = ctx.alloc(PObj('TcpServer', {TS('socket'): None, TS('poller'): poller, TS('fileno'): None, TS('state'): (0,), TS('host'): 'h', TS('port'): 1,
+                                       TS('hostAddrType'): 2, TS('sendBufferSize'): 8192, TS('recvBufferSize'): 8192}))
+
+    def may_fail(tag):
+        def f(I, s, a, k):
+            if ctx.decide(FreshBool(tag + 'Raises'), tag + '-raises'):
+                I.raise_('OSError', errno=98)
+            return None
+        return f
+    reg = {'Socket.setsockopt': lambda I, s, a, k: None, 'Socket.setblocking': lambda I, s, a, k: None, 'Socket.bind': may_fail('bind'),
+           'Socket.listen': may_fail('listen'), 'Socket.fileno': lambda I, s, a, k: fileno, 'Socket.close': lambda I, s, a, k: closed.append(s),
+           'Poller.subscribe': lambda I, s, a, k: subs.append(tuple(a)), 'Poller.unsubscribe': lambda I, s, a, k: unsub.append(a[0])}
+    ext = dict(EXT)
+    ext['socket.socket'] = lambda I, a, k: lsock
+    I = Interp(ctx, registry=reg, externals=ext, hooks={'call:cb': cb_hook})
+    I.cur_mod = mod
+
+    def run(meth):
+        fn, ci = mod.find('TcpServer.%s' % meth)
+        try:
+            I.call_funcdef(fn, mod, 'TcpServer', srv, [], {}, None, 'TcpServer.%s' % meth)
+            return 'ok'
+        except PyExc as e:
+            return e.typ
+    out = run('bind')
+    f = ctx.cell(srv).fields
+    if out == 'ok':
+        ctx.prove(f[TS('state')] == 1, 'C14:O14.7.bind.success-means-BINDED', info=repr(f[TS('state')]))
+        ctx.prove(len(subs) == 1, 'C14:O14.7.bind.subscribed-exactly-once')
+        if len(subs) == 1:
+            from pyvc.interp import BoundMethod
+            d, h, ev = subs[0]
+            ctx.prove(Eq(d, fileno) and f[TS('fileno')] is fileno, 'C14:O14.7.bind.subscribed-descriptor-is-the-listening-socket')
+            ctx.prove(isinstance(h, BoundMethod) and h.name.endswith('__onNewConnection'), 'C14:O14.7.bind.handler-is-the-accept-handler', info=repr(h))
+            ctx.prove(Eq(ev, 1 | 4), 'C14:O14.7.bind.subscribed-for-read-and-error', info=repr(ev))
+        out2 = run('unbind')
+        f = ctx.cell(srv).fields
+        ctx.prove(out2 == 'ok' and f[TS('state')] != 1 and unsub == [fileno] and closed == [lsock] and f[TS('fileno')] is None, 'C14:O14.7.unbind.unsubscribes-and-closes')
+        out3 = run('unbind')
+        ctx.prove(out3 == 'ok' and unsub == [fileno], 'C14:O14.7.unbind.idempotent')
+    else:
+        ctx.prove(out == 'OSError', 'C14:O14.7.bind.only-socket-errors-escape', info=out)
+        ctx.prove(f[TS('state')] != 1 and len(subs) == 0, 'C14:O14.7.bind.failed-bind-leaves-the-server-unbound-and-unsubscribed')
